@@ -206,8 +206,65 @@ func runRingSweep(c *core.Ctx, cp, off int) {
 	c.Nontrivial()
 }
 
+// Fat is an element larger than a memory page (allocation schemes that carve
+// nodes out of fixed-size slabs, copy loops that assume word-sized elements).
+type Fat struct {
+	ID  int
+	Pad [600]int64
+}
+
+func (f Fat) String() string { return fmt.Sprintf("Fat#%d", f.ID) }
+
+func newLinMonKind[T comparable](c *core.Ctx, kind int) *LinMon[T] {
+	switch kind % 6 {
+	case 0:
+		return newArrayStackMon[T](c)
+	case 1:
+		return newLinkedStackMon[T](c)
+	case 2:
+		return newArrayQueueMon[T](c)
+	case 3:
+		return newLinkedQueueMon[T](c)
+	default:
+		return newRingMon[T](c, ringCaps[c.R.Intn(len(ringCaps))])
+	}
+}
+
+// runLinTyped: the same removal-order monitor over another element type.
+func runLinTyped[T comparable](c *core.Ctx, kind int, tname string, next func() T) {
+	m := newLinMonKind[T](c, kind)
+	c.Count("elemtype:"+tname, 1)
+	for s := c.R.Range(20, 150); s > 0; s-- {
+		m.Step(next)
+	}
+	c.ObserveNow()
+	m.Check()
+	for m.n() > 0 {
+		m.DoTake()
+	}
+	m.DoTake()
+	c.Nontrivial()
+}
+
+var linElemTypes = []string{"fat-struct", "string", "struct", "pointer"}
+
 func runC05(c *core.Ctx) {
 	i := c.Index
+	if i%29 == 13 && i >= len(ringPlan)+5 {
+		id := 0
+		c.SetGaps((i/6)%2 == 1)
+		switch (i / 29) % 4 {
+		case 0:
+			runLinTyped(c, i, "fat-struct", func() Fat { id++; f := Fat{ID: id}; f.Pad[0], f.Pad[599] = int64(id), int64(-id); return f })
+		case 1:
+			runLinTyped(c, i, "string", func() string { id++; return strAlphabet[id%len(strAlphabet)] + itoa(id) })
+		case 2:
+			runLinTyped(c, i, "struct", func() SK { id++; return SK{id, strAlphabet[id%len(strAlphabet)]} })
+		default:
+			runLinTyped(c, i, "pointer", func() *PS { id++; return psPool[id%len(psPool)] })
+		}
+		return
+	}
 	if h := i - len(ringPlan); h >= 0 && h < 5 {
 		runHugeLinear(c, 3+h, hugeLinearN(c.Tier)) // stacks, queues and a ring with 300 000 elements
 		return
@@ -246,7 +303,18 @@ func runC05(c *core.Ctx) {
 		// sizes and lap counts that small tests never reach: fill to thousands,
 		// drain half, refill, many wrap-arounds of a large ring
 		if m.Cap > 0 {
-			m = newRingMon[int](c, []int{257, 1000, 1024, 4096}[c.R.Intn(4)])
+			m = newRingMon[int](c, []int{257, 300, 357, 1000, 1024, 4096, c.R.Range(65, 5000), c.R.Range(65, 5000)}[c.R.Intn(8)])
+			// a ragged first fill: elements leave while the ring fills up for the
+			// first time (storage that grows on demand is moved with a start offset
+			// that is not zero, by amounts that are not a power of two)
+			for lim := 3 * m.Cap; lim > 0 && m.n() < m.Cap; lim-- {
+				if c.R.Intn(3) > 0 {
+					m.DoPut(next())
+				} else {
+					m.DoTake()
+				}
+			}
+			c.Count("obs:big-ring-ragged-fill", 1)
 		}
 		target := c.R.Range(2000, 6000)
 		for round := 0; round < 3; round++ {
@@ -310,6 +378,10 @@ func init() {
 			f.atLeast("ring:overwrite", 1000)
 			f.atLeast("obs:take-on-empty", 1000)
 			f.atLeast("obs:take", 20000)
+			f.atLeast("obs:big-ring-ragged-fill", 20)
+			for _, n := range linElemTypes {
+				f.atLeast("elemtype:"+n, 100)
+			}
 			for _, n := range []string{"ArrayStack.Pop", "LinkedListStack.Pop", "ArrayQueue.Dequeue", "LinkedListQueue.Dequeue", "CircularBuffer.Dequeue", "CircularBuffer.Clear"} {
 				f.atLeast("call:"+n, 500)
 			}
@@ -317,8 +389,8 @@ func init() {
 		},
 		Files: linFiles,
 		Assumptions: []string{
-			"items are unique ints, so a lost, duplicated or reordered element is identified exactly",
-			"ring capacities up to 64; a clean run says the property held on the executed histories only",
+			"items are unique (ints, strings, structs; pointer elements repeat), so a lost, duplicated or reordered element is identified exactly",
+			"ring capacities 1..17, 31..33, 64 in the sweep, up to 5000 in the big cases; element types int, string, struct, pointer (incl. nil) and a struct larger than a page; a clean run says the property held on the executed histories only",
 		},
 	})
 }
